@@ -66,6 +66,18 @@ def run_family(prop, tier, seed, replay, origin="writer", mc_cfg=None, level="mo
             with open(cases, "a") as f:
                 f.write(open(cases2).read())
     case_list = C.read_ndjson(cases)
+    if not replay:
+        # directed: a tile of ZERO bytes, stored uncompressed, in the formats that can hold one (tar, directory, MBTiles;
+        # versatiles and PMTiles encode "no tile" as length 0 and are not asked) -- next to an ordinary and a tiny tile
+        empt = []
+        for fmt, tf in (("tar", "png"), ("tar", "pbf"), ("directory", "png"), ("directory", "pbf"), ("mbtiles", "png")):
+            for tiles in ([[1, 0, 0, 6], [1, 1, 0, 9], [2, 3, 3, 1]], [[0, 0, 0, 9]], [[3, 1, 1, 9], [3, 2, 1, 6], [3, 1, 2, 9]]):
+                empt.append({"k": "case", "origin": origin, "fmt": fmt, "tf": tf, "tc": "none", "tiles": tiles, "choices": {"none": 1},
+                             "classes": {"6": [999, 1], "9": [0, 4], "1": [5, 0]}, "directed": "empty_payload"})
+        case_list += empt
+        with open(cases, "w") as f:
+            for c in case_list:
+                f.write(json.dumps(c) + "\n")
     if prop == "C16" and not replay:
         # every 40th versatiles / pmtiles case once more through the HTTP data reader (get_reader("http://..."))
         extra = []
